@@ -47,8 +47,7 @@ func match(filter CompFilter, comp *ical.Component) (bool, error) {
 		return false, nil
 	}
 
-	var zeroDate time.Time
-	if filter.Start != zeroDate {
+	if !filter.Start.IsZero() || !filter.End.IsZero() {
 		match, err := matchCompTimeRange(filter.Start, filter.End, comp)
 		if err != nil {
 			return false, err
@@ -116,8 +115,7 @@ func matchPropFilter(filter PropFilter, comp *ical.Component) (bool, error) {
 		}
 	}
 
-	var zeroDate time.Time
-	if filter.Start != zeroDate {
+	if !filter.Start.IsZero() || !filter.End.IsZero() {
 		match, err := matchPropTimeRange(filter.Start, filter.End, field)
 		if err != nil {
 			return false, err
@@ -164,18 +162,19 @@ func matchCompTimeRange(start, end time.Time, comp *ical.Component) (bool, error
 		return false, err
 	}
 
-	// RFC 4791 section 9.9, conditions for VEVENT: in every row the range
-	// must end after DTSTART...
+	// RFC 4791 section 9.9, conditions for VEVENT (a zero start or end
+	// leaves the range open at that side): in every row the range must end
+	// after DTSTART...
 	if !end.IsZero() && !eventStart.Before(end) {
 		return false, nil
 	}
 	// ... and start before DTEND, DTSTART+DURATION (a positive duration) or
 	// DTSTART+P1D (an all-day start without end),
 	if eventEnd.After(eventStart) || event.Props.Get(ical.PropDateTimeEnd) != nil {
-		return start.Before(eventEnd), nil
+		return start.IsZero() || start.Before(eventEnd), nil
 	}
 	// or, for an event without extent, not after DTSTART.
-	return !start.After(eventStart), nil
+	return start.IsZero() || !start.After(eventStart), nil
 }
 
 func matchPropTimeRange(start, end time.Time, field *ical.Prop) (bool, error) {
@@ -186,7 +185,7 @@ func matchPropTimeRange(start, end time.Time, field *ical.Prop) (bool, error) {
 		return false, err
 	}
 	// the start of the range is inclusive, its end is not
-	if ptime.Before(start) {
+	if !start.IsZero() && ptime.Before(start) {
 		return false, nil
 	}
 	return end.IsZero() || ptime.Before(end), nil
